@@ -434,7 +434,16 @@ Definition minus (l xs : list ident) : list ident := filter (fun y => negb (memb
 
 Definition box_of (e : bexpr) : bexpr := BApp (BVar box_name) [e].
 
-(* [bx] = the boxed locals in scope *)
+(* rebinding of the assigned locals [mx] of a scope to boxes: (let ((x (#%box x)) ...) body) *)
+Definition wrap_boxes (mx : list ident) (body : bexpr) : bexpr :=
+  match mx with
+  | [] => body
+  | _ => BLet (map (fun x => (x, box_of (BVar x))) mx) body
+  end.
+
+(* [bx] = the boxed locals in scope.  Both binding forms evaluate their operands / bindings first and
+   then rebind the assigned ones to boxes in an inner let (the engine boxes a let binding in place,
+   `(%plain-let ((x (#%box e))) ..)`: same meaning, one scope less). *)
 Fixpoint aconv (bx : list ident) (e : sexpr) : bexpr :=
   match e with
   | SConst c => BConst c
@@ -442,11 +451,7 @@ Fixpoint aconv (bx : list ident) (e : sexpr) : bexpr :=
   | SLam ps rest body =>
       let xs := params ps rest in
       let mx := filter (fun x => assigned x body) xs in
-      let body' := aconv (mx ++ minus bx xs) body in
-      BLam ps rest (match mx with
-                    | [] => body'
-                    | _ => BLet (map (fun x => (x, box_of (BVar x))) mx) body'
-                    end)
+      BLam ps rest (wrap_boxes mx (aconv (mx ++ minus bx xs) body))
   | SApp f args => BApp (aconv bx f) ((fix go (es : list sexpr) : list bexpr :=
                                          match es with [] => [] | a :: r => aconv bx a :: go r end) args)
   | SIf c t e' => BIf (aconv bx c) (aconv bx t) (aconv bx e')
@@ -456,9 +461,9 @@ Fixpoint aconv (bx : list ident) (e : sexpr) : bexpr :=
       BLet ((fix go (bs : list (ident * sexpr)) : list (ident * bexpr) :=
                match bs with
                | [] => []
-               | (x, a) :: r => (x, if assigned x body then box_of (aconv bx a) else aconv bx a) :: go r
+               | (x, a) :: r => (x, aconv bx a) :: go r
                end) bs)
-           (aconv (mx ++ minus bx xs) body)
+           (wrap_boxes mx (aconv (mx ++ minus bx xs) body))
   | SSeq e1 e2 => BSeq (aconv bx e1) (aconv bx e2)
   | SSet x e' => if memb_s x bx then BApp (BVar setbox_name) [BVar x; aconv bx e'] else BSetG x (aconv bx e')
   end.
